@@ -77,10 +77,11 @@ static void log_bytes(const void * p, size_t n) {
     logf_("]");
 }
 
+static int write_zero;
 static size_t on_write(scpi_t * c, const char * d, size_t l) {
     (void) c;
     if (wlen + l <= sizeof wbuf) { memcpy(wbuf + wlen, d, l); wlen += l; }
-    return l;
+    return write_zero ? 0 : l;      /* what the transport reports must not change what the library does next */
 }
 static scpi_result_t on_flush(scpi_t * c) { (void) c; nflush++; return SCPI_RES_OK; }
 static int on_error(scpi_t * c, int_fast16_t e) {
@@ -389,6 +390,7 @@ int main(int argc, char ** argv) {
     if (!in || !out) { perror("open"); return 3; }
     scpi_verif_hook = hook;
     evon = getenv("DRV_EVENTS") != NULL;
+    write_zero = getenv("DRV_WRITE_ZERO") != NULL;
     if (getenv("DRV_NULL_ERROR")) { itf.error = NULL; drain_errors = 1; }
     if (getenv("DRV_NULL_CALLBACKS")) { itf.error = NULL; itf.control = NULL; itf.flush = NULL; itf.reset = NULL; }   /* the optional ones */
     while (fgets(line, sizeof line, in)) {
